@@ -82,6 +82,8 @@ package keeper
 //@ pred J(p, st, t) = !st.AmountMinted.IsNil() && st.AmountMinted >= 0 && !st.RemainderFromPreviousMinter.IsNil()
 //@   && 0 <= st.RemainderFromPreviousMinter && st.RemainderFromPreviousMinter < P
 //@   && hasMinter(p, st.SequenceId) && startOf(p, st.SequenceId) <= t
+//@ // schedule value of the current period at time t, including the carry it was entered with
+//@ spec func schedNow(p, st, t) int = sched(cur(p, st.SequenceId), startOf(p, st.SequenceId), t) + st.RemainderFromPreviousMinter
 //@ // carry with which period j was entered, read from the live state or from the history
 //@ spec func carryIn(j) int = $minterState.SequenceId == j ? $minterState.RemainderFromPreviousMinter : $histRemFrom[j]
 //@
@@ -90,15 +92,23 @@ package keeper
 //@   requires J(params, $minterState, $blockTime)
 //@   requires modaddr(k.collectorName) != modaddr("cfeminter")
 //@   requires 0 <= level && level <= $minterState.SequenceId
+//@   // the cumulative amount never runs ahead of the schedule (established by Mint from monotonicity)
+//@   requires $minterState.AmountMinted <= truncInt(schedNow(params, $minterState, $blockTime))
 //@   uses let m = cur(params, $minterState.SequenceId) in let s = startOf(params, $minterState.SequenceId) in
 //@     linSchedNonNeg(linCfg(m).Amount, s, *m.EndTime, $blockTime)
 //@     && expSchedNonNeg(expCfg(m).Amount, expCfg(m).AmountMultiplier, expCfg(m).StepDuration, s, *m.EndTime, m.EndTime != nil, $blockTime)
+//@   uses let m = cur(params, $minterState.SequenceId) in let m2 = cur(params, $minterState.SequenceId + 1) in
+//@     linSchedNonNeg(linCfg(m2).Amount, *m.EndTime, *m2.EndTime, $blockTime)
+//@     && expSchedNonNeg(expCfg(m2).Amount, expCfg(m2).AmountMultiplier, expCfg(m2).StepDuration, *m.EndTime, *m2.EndTime, m2.EndTime != nil, $blockTime)
 //@   modifies $minterState, $histPresent, $histMinted, $histRemFrom, $histRemTo, $bal, $supply
 //@   decreases params.Minters[0].SequenceId + len(params.Minters) - $minterState.SequenceId
 //@   ensures !res.IsNil() && res >= 0
 //@   ensures err == nil ==> $supply[params.MintDenom] == old($supply[params.MintDenom]) + res
 //@   ensures forall d: str :: {$supply[d]} d != params.MintDenom ==> $supply[d] == old($supply[d])
 //@   ensures err == nil ==> J(params, $minterState, $blockTime) && $minterState.SequenceId >= old($minterState.SequenceId)
+//@   ensures err == nil ==> $minterState.LastMintBlockTime == $blockTime
+//@   // THE property: after the block, the amount minted in the current period is exactly the integer part of its schedule
+//@   ensures err == nil ==> $minterState.AmountMinted == truncInt(schedNow(params, $minterState, $blockTime))
 //@   ensures forall j :: {$histMinted[j]} j < old($minterState.SequenceId) ==>
 //@     $histPresent[j] == old($histPresent[j]) && $histMinted[j] == old($histMinted[j]) && $histRemFrom[j] == old($histRemFrom[j]) && $histRemTo[j] == old($histRemTo[j])
 //@   ensures err == nil ==> carryIn(old($minterState.SequenceId)) == old($minterState.RemainderFromPreviousMinter)
@@ -115,4 +125,36 @@ package keeper
 //@       && $histMinted[st0.SequenceId] == truncInt(x) && $histRemTo[st0.SequenceId] == x - truncInt(x) * P
 //@       && carryIn(st0.SequenceId + 1) == x - truncInt(x) * P
 //@       && res >= truncInt(x) - st0.AmountMinted
+//@   prop C02 C01
+//@
+//@ // invariant of the stored minter state between blocks (what Mint needs on entry and re-establishes)
+//@ pred Jstore(p, st) = !st.AmountMinted.IsNil() && st.AmountMinted >= 0 && !st.RemainderFromPreviousMinter.IsNil()
+//@   && 0 <= st.RemainderFromPreviousMinter && st.RemainderFromPreviousMinter < P && hasMinter(p, st.SequenceId)
+//@   && (curIdx(p, st.SequenceId) > 0 ==> *p.Minters[curIdx(p, st.SequenceId) - 1].EndTime <= st.LastMintBlockTime)
+//@   && timeOK(st.LastMintBlockTime)
+//@   && st.AmountMinted <= truncInt(schedNow(p, st, max(st.LastMintBlockTime, startOf(p, st.SequenceId))))
+//@
+//@ func (k Keeper) Mint(ctx) (res, err)
+//@   requires validMinters($minterParams.Minters, $minterParams.StartTime) && timeOK($blockTime)
+//@   requires Jstore($minterParams, $minterState)
+//@   requires modaddr(k.collectorName) != modaddr("cfeminter")
+//@   uses let m = cur($minterParams, $minterState.SequenceId) in let s = startOf($minterParams, $minterState.SequenceId) in
+//@     let t0 = max($minterState.LastMintBlockTime, s) in
+//@     linSchedMono(linCfg(m).Amount, s, *m.EndTime, t0, $blockTime)
+//@     && expSchedMono(expCfg(m).Amount, expCfg(m).AmountMultiplier, expCfg(m).StepDuration, s, *m.EndTime, m.EndTime != nil, t0, $blockTime)
+//@   modifies $minterState, $histPresent, $histMinted, $histRemFrom, $histRemTo, $bal, $supply
+//@   ensures !res.IsNil() && res >= 0
+//@   ensures err == nil && $blockTime >= $minterParams.StartTime && old($minterState.LastMintBlockTime) < $blockTime ==>
+//@     $minterState.AmountMinted == truncInt(schedNow($minterParams, $minterState, $blockTime)) && $minterState.LastMintBlockTime == $blockTime
+//@   ensures err == nil ==> $supply[$minterParams.MintDenom] == old($supply[$minterParams.MintDenom]) + res
+//@   ensures forall d: str :: {$supply[d]} d != $minterParams.MintDenom ==> $supply[d] == old($supply[d])
+//@   ensures err == nil ==> Jstore($minterParams, $minterState)
+//@   ensures $blockTime < $minterParams.StartTime || old($minterState.LastMintBlockTime) >= $blockTime ==>
+//@     err == nil && res == 0 && $minterState == old($minterState) && $supply == old($supply) && $bal == old($bal)
+//@   ensures let st0 = old($minterState) in let m = cur($minterParams, st0.SequenceId) in
+//@     let x = sched(m, startOf($minterParams, st0.SequenceId), $blockTime) + st0.RemainderFromPreviousMinter in
+//@     err == nil && $blockTime >= $minterParams.StartTime && st0.LastMintBlockTime < $blockTime
+//@       && truncInt(x) >= st0.AmountMinted && (m.EndTime == nil || $blockTime < *m.EndTime) ==>
+//@       $minterState.SequenceId == st0.SequenceId && $minterState.AmountMinted == truncInt(x)
+//@       && $minterState.RemainderToMint == x - truncInt(x) * P && res == truncInt(x) - st0.AmountMinted
 //@   prop C02 C01
